@@ -205,7 +205,10 @@ func (p *Prog) LoadContracts() error {
 	sort.Strings(specs)
 	for _, f := range specs {
 		if err := p.db.ParseFile(f, ""); err != nil {
-			return err
+			if fileProp(f) == "" {
+				return err
+			}
+			p.db.FileErrs[f] = err // a property's own library spec file: fatal for that property's check only
 		}
 	}
 	for _, cs := range p.db.Funcs {
